@@ -7,8 +7,9 @@ Transcribed from `src/lib.rs`:
 * a request that finds the page cached but not its class goes through `handle_vary_missing`: when its handler has
   returned it looks the entry up AGAIN and pushes its variant onto what is there NOW (replacing an equal one); if the
   entry is gone it stores a fresh entry with its variant alone;
-* a request that finds the page not cached at all (the `_ =>` arm of `handle_cache`) stores, when its handler has returned,
-  a fresh entry with its variant alone — whatever has been stored meanwhile.
+* a request that finds the page not cached at all (the `_ =>` arm of `handle_cache`, `maybe_cache`) does the same since
+  the repair F47: it looks the entry up when its handler has returned and joins what other requests have stored
+  meanwhile. Before, it stored a fresh entry with its variant alone — whatever had been stored meanwhile (`finishOld`).
 Classes are numbers; admission, lifetimes and bodies are `CacheVary.lean`'s business, not this model's.
 -/
 namespace VaryConc
@@ -52,13 +53,22 @@ def step (st : St) : Act → St
   | .finish c =>
     match takeInflight c st.inflight with
     | none => st
-    | some (warm, rest) =>
-      if warm then
-        match st.entry with
-        | some l => { st with entry := some (push c l), inflight := rest }
-        | none => { st with entry := some [c], inflight := rest }
-      else { st with entry := some [c], inflight := rest }
+    | some (_, rest) =>
+      match st.entry with
+      | some l => { st with entry := some (push c l), inflight := rest }
+      | none => { st with entry := some [c], inflight := rest }
   | .clear => { st with entry := none }
+
+/-- `finish` as the pinned code did it (before F47): a request that had found the page uncached replaces the entry -/
+def finishOld (st : St) (c : Class) : St :=
+  match takeInflight c st.inflight with
+  | none => st
+  | some (warm, rest) =>
+    if warm then
+      match st.entry with
+      | some l => { st with entry := some (push c l), inflight := rest }
+      | none => { st with entry := some [c], inflight := rest }
+    else { st with entry := some [c], inflight := rest }
 
 def run (st : St) (acts : List Act) : St := acts.foldl step st
 
